@@ -50,8 +50,9 @@ Definition str_of_Z (z : Z) : str :=
   end.
 
 (* repr(float) in positional notation: the harness encodes a float whose repr is [-]ddd.ddd as
-   VFloat (digits without the dot) (10^k), k = number of fractional digits; anything else
-   (exponent form, inf, nan) has a denominator that is not 10^k, k >= 1, and is not modelled *)
+   VFloat (digits without the dot) (10^k), k = number of fractional digits.  A float whose repr has an
+   exponent is encoded with its exact decimal value and a NEGATIVE denominator (numerator negated):
+   equal as a fraction (val_eqb cross-multiplies), but its text is not modelled *)
 Fixpoint pow10k (fuel : nat) (d : N) : option nat :=
   match fuel with
   | O => None
@@ -221,32 +222,57 @@ Definition floatish (c : N) : bool :=
   is_digit c || (c <? 33) || (128 <=? c)
   || memN c [46; 43; 45; 95; 101; 69;                 (* . + - _ e E *)
              105; 110; 102; 116; 121; 97; 73; 78; 70; 84; 89; 65].  (* inf nan infinity *)
-(* float(s) for s = [-]digits[.digits] with at most 15 digits (exactly representable decimal input
-   whose repr gives the same digits back, up to trailing zeros) *)
+(* float(s) for decimal literals (repr gives the same value back: <= 15 significant digits) *)
 Fixpoint span_digits (s : str) : str * str :=
   match s with
   | c :: r => if is_digit c then let (a, b) := span_digits r in (c :: a, b) else ([], s)
   | [] => ([], [])
   end.
 Fixpoint pow10 (k : nat) : N := match k with O => 1 | S j => 10 * pow10 j end.
+(* [-]digits[.digits][(e|E)[+-]digits] with at most 15 significant digits and |exponent| <= 290:
+   the exact decimal value, as a fraction *)
 Definition decimal_val (s : str) : option val :=
   let (neg, body) := match s with c :: r => if N.eqb c 45 then (true, r) else (false, s) | [] => (false, s) end in
   let (ip, r1) := span_digits body in
-  let sign := fun z : Z => if neg then Z.opp z else z in
-  match ip, r1 with
-  | _ :: _, [] => if Nat.leb (length ip) 15 then Some (VFloat (sign (Z.of_N (N_of_digits ip))) 1) else None
-  | _ :: _, c :: r2 =>
-      if N.eqb c 46 then
-        let (fp, r3) := span_digits r2 in
-        match fp, r3 with
-        | _ :: _, [] =>
-            if Nat.leb (length ip + length fp) 15
-            then Some (VFloat (sign (Z.of_N (N_of_digits (ip ++ fp)))) (Z.of_N (pow10 (length fp))))
-            else None
-        | _, _ => None
-        end
-      else None
-  | _, _ => None
+  match ip with
+  | [] => None
+  | _ =>
+    let '(fp, r2) :=
+      match r1 with
+      | c :: r => if N.eqb c 46 then let (f, r') := span_digits r in (Some f, r') else (None, r1)
+      | [] => (None, r1)
+      end in
+    match fp with
+    | Some [] => None
+    | _ =>
+      let fd := match fp with Some f => f | None => [] end in
+      let m := Z.of_N (N_of_digits (ip ++ fd)) in
+      let f := length fd in
+      let sign := fun z : Z => if neg then Z.opp z else z in
+      if negb (Nat.leb (length ip + f) 15) then None else
+      match r2 with
+      | [] => Some (VFloat (sign m) (Z.of_N (pow10 f)))
+      | c :: r3 =>
+          if N.eqb c 101 || N.eqb c 69 then
+            let '(eneg, r4) :=
+              match r3 with
+              | c' :: r' => if N.eqb c' 45 then (true, r') else if N.eqb c' 43 then (false, r') else (false, r3)
+              | [] => (false, r3)
+              end in
+            let (ed, r5) := span_digits r4 in
+            match ed, r5 with
+            | _ :: _, [] =>
+                let e := N.to_nat (N_of_digits ed) in
+                if Nat.leb (length ed) 3 && Nat.leb e 290 then
+                  if eneg then Some (VFloat (sign m) (Z.of_N (pow10 (f + e))))
+                  else if Nat.leb f e then Some (VFloat (sign (m * Z.of_N (pow10 (e - f)))%Z) 1)
+                  else Some (VFloat (sign m) (Z.of_N (pow10 (f - e))))
+                else None
+            | _, _ => None
+            end
+          else None
+      end
+    end
   end.
 
 (* int(s) if s.isdigit() else float(s) *)
